@@ -24,7 +24,9 @@ func init() {
 		Explanation: `R08.1 accounting: every op written by the diff's op writer updates exactly one of FreshBytes/ReusedBytes before the write; R08.2 both sides use the same weak (βhash) and strong (uniqueHash) hash functions; ` +
 			`R08.3 after a match the rolling state is reset and the library lookup is skipped only while rolling with an unchanged hash; R08.4 library completeness: NewBlockLibrary inserts every hash, and findUniqueHash gives up (returns nil) only after its fallback loop exhausted the whole bucket. ` +
 			`NOT decided (numerical): that the rolling update equals βhash at every offset, the per-edit bound, the values of FreshBytes/ReusedBytes.`,
-		Run: runC08,
+		Run:        runC08,
+		Fixtures:   fixturesAlias,
+		FixturePkg: "aliasfx",
 	})
 }
 
@@ -499,6 +501,7 @@ func runC08(c *core.Ctx) {
 	c.Rule("R08.3", "re-synchronisation after a match")
 	c.Rule("R08.4", "library completeness")
 	ruleShortSizeIsShort(c, "R04.5")
+	ruleNoAppendToInteriorSubslice(c, "R08.5", "/wsync", "/pwr", "/bsdiff", "/pwr/bowl", "/pwr/patcher", "/pwr/rediff")
 	// ---- R08.1
 	mow := c.P.Fn("pwr", "makeOpsWriter")
 	if mow == nil || len(mow.AnonFuncs) != 1 {
@@ -713,4 +716,19 @@ func runC08(c *core.Ctx) {
 		}
 		c.Floor("R08.4", "give-up returns of findUniqueHash", n, 1)
 	}
+}
+
+func fixturesAlias(fc *core.Ctx) map[string]bool {
+	rep := map[string]bool{}
+	for _, fn := range fc.P.SrcFuncs() {
+		if !strings.HasSuffix(core.PkgPathOf(fn), "/aliasfx") {
+			continue
+		}
+		core.Instrs(fn, func(in ssa.Instruction) {
+			if cl, ok := in.(*ssa.Call); ok && len(interiorSubslices(cl)) > 0 {
+				rep[family(fn).Name()] = true
+			}
+		})
+	}
+	return rep
 }
